@@ -4,6 +4,7 @@ package binary
 
 import (
 	"bytes"
+	"errors"
 
 	"go.uber.org/thriftrw/wire"
 )
@@ -57,6 +58,14 @@ func h02() {
 	same, diff := zzDiff(dn, v)
 	verifAssert(same, "decode-shape")
 	verifAssert(diff == 0, "decode-leaves")
+
+	// 3b. the decoded value does not depend on how it was iterated before:
+	// an iteration abandoned after the first element, and a re-entrant one
+	zzPartial(dv)
+	dn3, err := zzFromWire(dv)
+	verifAssert(err == nil, "decode-again-after-partial-iteration-ok")
+	same, diff = zzDiff(dn3, v)
+	verifAssert(same && diff == 0, "decode-value-stable-under-partial-iteration")
 
 	// 4. streaming reader (non-seekable source)
 	os := &zzOneShot{b: spec}
@@ -188,4 +197,35 @@ func h02big() {
 	verifAssert(g2[0] == bin[0] && g2[l/2] == bin[l/2] && g2[l-1] == bin[l-1], "stream-read-binary-bytes")
 	verifAssert(sn.kids[1].num == v.kids[1].num, "stream-read-field-after-binary")
 	verifReached("end")
+}
+
+var zzStop = errors.New("stop")
+
+// zzPartial abandons an iteration over every container of v after its first
+// element, having started a second iteration from inside the first.
+func zzPartial(v wire.Value) {
+	switch v.Type() {
+	case wire.TStruct:
+		for _, f := range v.GetStruct().Fields {
+			zzPartial(f.Value)
+		}
+	case wire.TList, wire.TSet:
+		l := v.GetList()
+		if v.Type() == wire.TSet {
+			l = v.GetSet()
+		}
+		l.ForEach(func(e wire.Value) error {
+			zzPartial(e)
+			l.ForEach(func(wire.Value) error { return zzStop })
+			return zzStop
+		})
+	case wire.TMap:
+		m := v.GetMap()
+		m.ForEach(func(it wire.MapItem) error {
+			zzPartial(it.Key)
+			zzPartial(it.Value)
+			m.ForEach(func(wire.MapItem) error { return zzStop })
+			return zzStop
+		})
+	}
 }
